@@ -20,7 +20,10 @@ for d in sorted(glob.glob("/verif/seeded/*/meta.json")):
                 out.append(f"{p}: MISSED")
         return "; ".join(out)
     what = (m.get("summary") or m["needs_to_manifest"].split("\n")[0])[:160].replace("|", "/")
-    rows.append(f"| {sid} | {what} | {fmt(first)} | {fmt(final) if 'final_results' in m else 'same'} |")
+    last = fmt(final) if 'final_results' in m else 'same'
+    if m.get("status_after_repair"):
+        last = "neutralised by fix 3babd1e (demo passes with the change); before that fix: caught (machine_history_step_order)"
+    rows.append(f"| {sid} | {what} | {fmt(first)} | {last} |")
 print("| seed | change (first line of the author's notes) | first run of the quick check | after strengthening |")
 print("|---|---|---|---|")
 print("\n".join(rows))
